@@ -81,6 +81,9 @@ func gen(r *sim.Rng, tier string) *sim.Case {
 		if r.Pct(15) {
 			p["again"] = 1 // an unrelated second call before the first result is read
 		}
+		if r.Pct(10) {
+			p["prepanic"] = 1 + r.N(2*n+6) // an earlier call whose callback panicked at its k-th invocation
+		}
 		p["over"] = r.N(2)
 	case 2:
 		nv := r.Range(1, 9)
@@ -211,6 +214,38 @@ func breakerOf(k int) []func(old, new []item) bool {
 	return nil
 }
 
+// panickedCall: an earlier, unrelated call on other items whose callback panicked half way and
+// whose caller recovered (a request handler that carries on).  What that call left behind must
+// not leak into the next one.
+func panickedCall(c *sim.Case, out *sim.WorkerOut, its []item, limit int) {
+	k := c.P("prepanic")
+	if k == 0 {
+		return
+	}
+	out.Faults["callback_panicked_in_an_earlier_call_(recovered)"]++
+	other := make([]item, len(its)+2)
+	for i := range other {
+		other[i] = item{idx: 100 + i, w: 1 + (i*7+k)%(limit+2), v: 500 + 37*i}
+	}
+	calls := 0
+	boom := func(i item) int {
+		calls++
+		if calls == k {
+			panic("callback failed")
+		}
+		return i.v
+	}
+	wf := func(i item) int { return i.w }
+	func() {
+		defer func() { recover() }()
+		if k%2 == 0 {
+			_ = algz.Knapsack(limit+1, other, wf, boom, breakerOf(c.P("breaker"))...)
+		} else {
+			_ = algz.FindDpSolvers(limit+1, other, boom, c.P("over") == 1, breakerOf(c.P("breaker"))...)
+		}
+	}()
+}
+
 // secondCall makes another, unrelated call between a call and the reading of its result: the
 // first result must not live in memory the package hands out again.
 func secondCall(c *sim.Case, out *sim.WorkerOut, its []item, limit int) {
@@ -241,6 +276,7 @@ func knap(c *sim.Case, out *sim.WorkerOut, dg *engc.Digest) *sim.Violation {
 	if limit < 0 {
 		limit = 0
 	}
+	panickedCall(c, out, its, limit)
 	sel := algz.Knapsack(limit, its, func(i item) int { return i.w }, func(i item) int { return i.v }, breakerOf(c.P("breaker"))...)
 	secondCall(c, out, its, limit)
 	if v := distinct(sel, "Knapsack"); v != nil {
@@ -299,6 +335,7 @@ func solvers(c *sim.Case, out *sim.WorkerOut, dg *engc.Digest) *sim.Violation {
 		limit = 0
 	}
 	over := c.P("over") == 1
+	panickedCall(c, out, its, limit)
 	dp := algz.FindDpSolvers(limit, its, func(i item) int { return i.w }, over, breakerOf(c.P("breaker"))...)
 	secondCall(c, out, its, limit)
 	// brute force: attainable totals
